@@ -28,7 +28,7 @@ impl Sim {
         }
     }
 
-    fn grow(&mut self) {
+    pub fn grow(&mut self) {
         while self.h.len() < self.model.nodes.len() {
             self.h.push(None);
         }
@@ -405,6 +405,35 @@ fn gen_valid_op(src: &mut Src, m: &Forest, small: bool, ctx: &mut Ctx) -> Option
     }
 }
 
+/// Create adjacent (and empty) text nodes under some element while
+/// consolidation is off, then possibly switch it on again: the state in which
+/// pre-existing adjacency meets consolidating moves.
+pub fn adjacent_text_setup(sim: &mut Sim, src: &mut Src, log: &mut Vec<String>) -> Result<(), String> {
+    sim.model.set_consolidation(false);
+    sim.xot.set_text_consolidation(false);
+    log.push("set_text_consolidation(false)".to_string());
+    let holders: Vec<usize> = sim.model.alive().into_iter().filter(|n| sim.model.is_element(*n)).collect();
+    if !holders.is_empty() {
+        let p = holders[src.choice_big(holders.len())];
+        for t in ["x", "", "y"] {
+            let op = Op::AppendText(p, t.to_string());
+            let eff = apply_model(&mut sim.model, &op);
+            sim.grow();
+            let hs = sim.h.clone();
+            let hf = move |i: usize| hs[i].expect("unbound");
+            hist::exec(&mut sim.xot, &op, &hf);
+            sim.compare(&eff).map_err(|e| format!("harness: adjacent text setup: {}", e))?;
+            log.push(op.show());
+        }
+    }
+    if src.ratio(2, 3) {
+        sim.model.set_consolidation(true);
+        sim.xot.set_text_consolidation(true);
+        log.push("set_text_consolidation(true)".to_string());
+    }
+    Ok(())
+}
+
 pub fn gen_valid_op_pub(src: &mut Src, m: &Forest, small: bool, ctx: &mut Ctx) -> Option<Op> {
     gen_valid_op(src, m, small, ctx)
 }
@@ -620,7 +649,7 @@ impl Property for C05 {
                 Plan {
                     name: "hist",
                     kind: PlanKind::Random {
-                        cases: 12_000,
+                        cases: 40_000,
                         max_len: 400,
                     },
                     knobs: Knobs {
@@ -690,6 +719,12 @@ impl Property for C05 {
         }
         if let Err(e) = sim.compare(&Effect::default()) {
             return Verdict::Fail(format!("harness: start forest does not read back: {}", e));
+        }
+        if !small && src.ratio(1, 4) {
+            ctx.label("adjacent_text_after_toggle");
+            if let Err(e) = adjacent_text_setup(&mut sim, src, &mut log) {
+                return Verdict::Fail(e);
+            }
         }
         let nops = if small {
             ctx.knobs.max_ops
